@@ -126,8 +126,8 @@ claim("C10",
   "DESIGN.md §4 C10")
 claim("C21",
   "Lean 4 model of _Flattener/_records and of the shared-seen walk with theorems + correspondence with the real _records on tasks of real layers and with the real walk + an in-process records executor compared block by block with __dask_graph__",
-  "5 theorems (all nested nodes): the flat records evaluate to the value of the nested node with only declared deps visible; -subN keys distinct; every dep names an outer key or a generated record; a shared-seen walk emits one layer per name and the union is complete given per-layer completeness.",
-  TB + "Native Rust layers absent: only GraphRecordsLayer and FusedBlockwiseLayer's pure-Python records are exercised; binary chunks and frisky.Future branches are untestable offline; sub-key string injectivity assumed.",
+  "15 theorems: (all nested nodes) the flat records evaluate to the value of the nested node with only declared deps visible; -subN keys distinct; every dep names an outer key or a generated record; a shared-seen walk emits one layer per name and the union is complete given per-layer completeness; Props/C21Keys (10), at the level of key STRINGS (what a worker resolves by): _norm_key is idempotent, canonical on keys without np.str_/np.bool_ components and Python-equal to the key as written; on canonical keys str is injective and == holds iff the strings are equal (raw keys: (('x', np.int64(0)) == ('x', 0)) with different strings — decided witness); for every record the strings of the embedded key objects are exactly the declared deps (reusing a ref when == breaks this: decided witness — a seeded change); completeness at string level.",
+  TB + "Native Rust layers absent: only GraphRecordsLayer and FusedBlockwiseLayer's pure-Python records are exercised; binary chunks and frisky.Future branches are untestable offline; key names restricted to [A-Za-z0-9_.-] (no repr escaping), floats / nested tuples as key components not modelled.",
   "DESIGN.md §4 C21")
 claim("C05",
   "Lean 4 model of the entry points (materialize + RootAlias pin, from_graph rebuild with the three-way _find_layer_key lookup) with theorems + correspondence of the lookup on real and synthetic layers + NumPy-oracle search over 11 entry points x 2 schedulers x follow-on ops",
@@ -151,8 +151,8 @@ claim("C29",
   "DESIGN.md §4 C29")
 
 claim("C02",
-  "Lean 4 soundness theorems for 22 rewrite rules on the expression mini-language, the block-id assignment of blockwise fusion, chunk unification at lowering, the gates of the generic Blockwise slice/take pushdown, the coarse (adjust_chunks) slice pushdown, the slice rule of map_overlap and the axis-permutation rules (122 theorems) + congruence/fixpoint theorems (optimize sound for any rule sequence) + correspondence: every traced real rewrite (before/after objects exported) must be den-equal for the model (ru.equiv), instances of proved rules counted + real-code search (4 phase forms vs NumPy, fused vs lowered blocks, every fired rewrite computed on both sides, rule-directed chains, sliding-window kernel substitution)",
-  "C02_rule_sound_<rule> for slice-slice fusion, identity-slice removal, slice through elemwise/transpose/expand_dims/squeeze/reductions/concatenate, rechunk no-op / rechunk-rechunk / through elemwise, transpose, expand_dims / into a source; C02_step_sound, C02_any_sequence, C02_optimize_sound and C02_optimize_compute (with C01) for every well-formed expression. Extensions audited by the same check: slice through broadcast_to, rechunk through concatenate, rechunk-slice composition (Props/C02Ext); fusion: under WF, Ordered, Accepted (model of _remove_conflicting_exprs) and ValidBlock every member gets the block id reached along every path and the fused task reads exactly what the unfused graph reads (C02_fuse_block_ids, Props/C02Fusion); chunk unification at lowering is well-formed, denotes the pointwise op and computes it (C02l_*, Props/C02Lower). the generic Blockwise slice/take pushdown is sound for label-local block functions whenever its gate fires, each gate is necessary (C02g_push_sound, C02g_gate_necessary_*, Props/C02Gate); the coarse adjust_chunks path keeps exactly the blocks meeting the slice and the rewritten node denotes the slice of the original for every block-to-block function (C02c_accept_sound, C02c_findBlockRange_spec, C02c_operand_axis_gates, Props/C02Coarse; chunks: C03c_*, Props/C03Coarse); the slice rule of map_overlap expands by the depth, trims on top and is sound for every boundary kind and window-local function, the periodic guard on the expanded slice is necessary (C02o_accept_sound[_nd,_node], C02o_periodic_guard_necessary, Props/C02Overlap). Axis permutations (Props/C02Perm, 24): transpose of transpose is the transpose by the composed permutation exactly as the code composes it (the opposite order differs: decided witness), the inverse permutation, the block-key map of the transpose layer, take through transpose uses axes[k] (inverse[k] is wrong: witness), the swapaxes / moveaxis / rollaxis builders have NumPy's meaning, the push through elemwise fires iff every array operand, where= and out= has the output rank and is sound then. Lowering of other node kinds is covered by the search only; block-layout-sensitive consumers over pushdown targets are searched by harness/props_ext/c02_grid.py.",
+  "Lean 4 soundness theorems for 22 rewrite rules on the expression mini-language, the block-id assignment of blockwise fusion, chunk unification at lowering, the gates of the generic Blockwise slice/take pushdown, the coarse (adjust_chunks) slice pushdown, the slice rule of map_overlap, the axis-permutation rules, slices folded into creation arrays and the slice pushdown through reductions (142 theorems) + congruence/fixpoint theorems (optimize sound for any rule sequence) + correspondence: every traced real rewrite (before/after objects exported) must be den-equal for the model (ru.equiv), instances of proved rules counted + real-code search (4 phase forms vs NumPy, fused vs lowered blocks, every fired rewrite computed on both sides, rule-directed chains, sliding-window kernel substitution)",
+  "C02_rule_sound_<rule> for slice-slice fusion, identity-slice removal, slice through elemwise/transpose/expand_dims/squeeze/reductions/concatenate, rechunk no-op / rechunk-rechunk / through elemwise, transpose, expand_dims / into a source; C02_step_sound, C02_any_sequence, C02_optimize_sound and C02_optimize_compute (with C01) for every well-formed expression. Extensions audited by the same check: slice through broadcast_to, rechunk through concatenate, rechunk-slice composition (Props/C02Ext); fusion: under WF, Ordered, Accepted (model of _remove_conflicting_exprs) and ValidBlock every member gets the block id reached along every path and the fused task reads exactly what the unfused graph reads (C02_fuse_block_ids, Props/C02Fusion); chunk unification at lowering is well-formed, denotes the pointwise op and computes it (C02l_*, Props/C02Lower). the generic Blockwise slice/take pushdown is sound for label-local block functions whenever its gate fires, each gate is necessary (C02g_push_sound, C02g_gate_necessary_*, Props/C02Gate); the coarse adjust_chunks path keeps exactly the blocks meeting the slice and the rewritten node denotes the slice of the original for every block-to-block function (C02c_accept_sound, C02c_findBlockRange_spec, C02c_operand_axis_gates, Props/C02Coarse; chunks: C03c_*, Props/C03Coarse); the slice rule of map_overlap expands by the depth, trims on top and is sound for every boundary kind and window-local function, the periodic guard on the expanded slice is necessary (C02o_accept_sound[_nd,_node], C02o_periodic_guard_necessary, Props/C02Overlap). Axis permutations (Props/C02Perm, 24): transpose of transpose is the transpose by the composed permutation exactly as the code composes it (the opposite order differs: decided witness), the inverse permutation, the block-key map of the transpose layer, take through transpose uses axes[k] (inverse[k] is wrong: witness), the swapaxes / moveaxis / rollaxis builders have NumPy's meaning, the push through elemwise fires iff every array operand, where= and out= has the output rank and is sound then. Creation arrays (Props/C02Creation, 10): num_rows = len(range(...)), the blocks of arange concatenate to its values for every chunking, a slice of an integer arange is the folded arange with exactly those values and an exact stop, the float midpoint gives back the count, slices / takes of constant arrays are the constant array of the new shape with the name reset. Reductions (Props/C02ReduceSlice, 7): for every lane function, output size (topk: k), keepdims and index on which the rule fires, (reduce x)[index] = (reduce x[input_index])[final_index]; the item on a kept reduced axis is re-applied unchanged (replacing it by 0 — a seeded change — differs: decided witness); decline iff. Lowering of other node kinds is covered by the search only; block-layout-sensitive consumers over pushdown targets are searched by harness/props_ext/c02_grid.py.",
   TB + "The tie is ru.equiv on exported real rewrites; coverage and measure are evidence only. Known findings: swv-layout-drift, take-through-broadcast, slice-through-generic-blockwise.",
   "DESIGN.md §4 C02")
 claim("C08",
